@@ -20,6 +20,23 @@ CHECKS = {
             "Fraction/Decimal). NaN, Decimal-vs-Fraction pairs and vectors with elements from different families are "
             "outside the property's 'mutually comparable' families and are not compared.",
             "5/C17"),
+    "C12": ("Atom, AtomImpl, Atom_Trace",
+            "TLA+ specs Atom.tla (linearizable cell) and AtomImpl.tla (mechanism as built) model-checked by TLC "
+            "(simulation + termination); real executions under a deterministic thread scheduler validated by "
+            "TLC trace validation (Atom_Trace)",
+            "TLC checks that the as-built mechanism (read, compute, validate, lock, compare, set, notify as separate "
+            "steps) simulates the linearizable specification for 2-3 threads and terminates under weak fairness, and "
+            "that the same model without the lock or with comparison by equality only is rejected.  The real "
+            "basilisp.core atom operations are then run on real threads under a deterministic scheduler through "
+            "every schedule with at most 2 (thorough: 3) pre-emptions at line granularity; every distinct recorded "
+            "history (call/return/watch events) must be accepted by TLC as a behaviour of Atom.tla; deadlock and "
+            "non-termination are detected by the scheduler.",
+            "Trusted: TLC; the deterministic scheduler (pre-emption only at Python line boundaries of atom.py/"
+            "reference.py, at lock operations and inside harness update functions); the abstraction of values "
+            "(ints, nil, one class of not-self-equal values realised as NaN, [NaN] and an object with a pathological "
+            "__eq__). Pre-emption bound 2/3; scenarios whose schedule count exceeds the per-scenario budget are "
+            "sampled (reported in the evidence).",
+            "5/C12"),
 }
 
 NOT_APPLICABLE = []
